@@ -10,7 +10,7 @@
   A crash leaves exactly a PREFIX of the event sequence on disk (LevelDB batch atomicity and write ordering are the
   property's own premise).  "For every crash point" is therefore "for every prefix of the write log".
 -/
-import Aqv.Lemmas.ChainWriterTrace
+import Aqv.Lemmas.ChainBridge
 namespace Aqv.Props.C04
 open Aqv.ChainDb
 
@@ -139,24 +139,25 @@ example : (preLoop 100 (some 1) [(1, 60), (2, 60)] { acts := [.lk .rlock] }).1 =
     content; block numbers are parent+1; each flushed batch of `trie.Database.Commit` is children-first relative to the
     disk (§2, observed on every real log by the harness); on an archive node the block's state root is on disk after the
     flush. -/
-theorem impl_trace_ok (archive : Bool) (db : Db) (g : Hash) (hi : Inv archive db g) (steps : List Step)
-    (hok : StepsOK archive .head { db := db, head := g, hhdr := g } steps) :
+theorem impl_trace_ok (archive : Bool) (V : Hash → Hdr → Prop) (db : Db) (g : Hash) (hi : Inv archive V db g)
+    (steps : List Step) (hok : StepsOK archive V .head { db := db, head := g, hhdr := g } steps) :
     TraceOK archive db g (writeLog .head db g steps) = true :=
   writeLog_traceOK .head hi steps hok
 
 /-- composition: every crash point of every valid history recovers -/
-theorem every_crash_recovers (archive : Bool) (db : Db) (g : Hash) (hi : Inv archive db g) (steps : List Step)
-    (hok : StepsOK archive .head { db := db, head := g, hhdr := g } steps) :
+theorem every_crash_recovers (archive : Bool) (V : Hash → Hdr → Prop) (db : Db) (g : Hash) (hi : Inv archive V db g)
+    (steps : List Step) (hok : StepsOK archive V .head { db := db, head := g, hhdr := g } steps) :
     ∀ p, p <+: writeLog .head db g steps →
       RecoverOK archive (applyAll db (p.map (·.1))) (recover (applyAll db (p.map (·.1)))) ∧
       headPtr (applyAll db (p.map (·.1))) = some (ghostAt g p) :=
-  trace_discipline_sound archive db g _ (impl_trace_ok archive db g hi steps hok)
+  trace_discipline_sound archive db g _ (impl_trace_ok archive V db g hi steps hok)
 
 /-- **The tree before 141a732 / deec78d**: the same statement held only for histories in which no import
     reorganises (each block that becomes head extends the current head; side blocks are unrestricted).  The excluded
     set — imports that call `reorg` — was exactly where the statement failed (witnesses below). -/
-theorem prefix_impl_trace_ok_partial (archive : Bool) (db : Db) (g : Hash) (hi : Inv archive db g) (steps : List Step)
-    (hok : StepsOK archive .preFix { db := db, head := g, hhdr := g } steps) :
+theorem prefix_impl_trace_ok_partial (archive : Bool) (V : Hash → Hdr → Prop) (db : Db) (g : Hash)
+    (hi : Inv archive V db g) (steps : List Step)
+    (hok : StepsOK archive V .preFix { db := db, head := g, hhdr := g } steps) :
     TraceOK archive db g (writeLog .preFix db g steps) = true :=
   writeLog_traceOK .preFix hi steps hok
 
@@ -165,7 +166,7 @@ theorem prefix_impl_trace_ok_partial (archive : Bool) (db : Db) (g : Hash) (hi :
 /-- genesis image: block 0 with state root 100 -/
 def gen0 : Db :=
   [(.lastBlock, .ref 0), (.lastHeader, .ref 0), (.canon 0, .ref 0), (.header 0, .hdr 999 0 100), (.hashNum 0, .num 0),
-   (.body 0, .txs []), (.node 100, .node [])]
+   (.body 0, .txs []), (.td 0, .blob), (.node 100, .node [])]
 
 def step1 : Step := .importBlock ⟨1, 0, 1, 101, [1]⟩ true [[(.node 101, some (.node [100]))]]
 def step2 : Step := .importBlock ⟨2, 0, 1, 102, [2]⟩ true [[(.node 102, some (.node [100]))]]
@@ -215,28 +216,195 @@ theorem prefix_batchFirst_only_witness :
 theorem head_sibling_reorg_ok : TraceOK true gen0 0 (writeLog .head gen0 0 siblingReorg) = true := by decide
 
 /-- non-vacuity of `impl_trace_ok` / `impl_trace_ok_partial`: the genesis image satisfies the invariant … -/
-example : Inv true gen0 0 := invB_sound (by decide)
+example : Inv true (fun _ _ => True) gen0 0 := invB_sound (by decide)
 
 /-- … and the reorganising history `siblingReorg` satisfies `StepsOK` (its first step alone, which extends the head, satisfied it
     for the pre-fix writers too) -/
-example : StepsOK true .head { db := gen0, head := 0, hhdr := 0 } siblingReorg := by
-  refine ⟨⟨⟨by decide, by decide, by decide, by decide, ?_⟩, Or.inl ⟨rfl, rfl⟩⟩, ⟨⟨by decide, by decide, by decide, by decide, ?_⟩,
-    Or.inl ⟨rfl, rfl⟩⟩, trivial⟩
+example : StepsOK true (fun _ _ => True) .head { db := gen0, head := 0, hhdr := 0 } siblingReorg := by
+  have hn0 : blockNumber gen0 0 = some 0 := by decide
+  have hn1 : blockNumber (step .head { db := gen0, head := 0, hhdr := 0 } step1).db 0 = some 0 := by decide
+  refine ⟨⟨⟨by decide, by decide, by decide, by decide, ?_, trivial, ?_⟩, Or.inl ⟨rfl, rfl⟩⟩,
+    ⟨⟨by decide, by decide, by decide, by decide, ?_, trivial, ?_⟩, Or.inl ⟨rfl, rfl⟩⟩, trivial⟩
   · intro n hn
-    have : blockNumber gen0 0 = some 0 := by decide
-    rw [show (⟨1, 0, 1, 101, [1]⟩ : Blk).parent = 0 from rfl, this] at hn
+    rw [show (⟨1, 0, 1, 101, [1]⟩ : Blk).parent = 0 from rfl, hn0] at hn
     injection hn with hn; subst hn; rfl
+  · intro m hm
+    have : m = 0 := by have : (1 : Nat) = m + 1 := hm
+                       omega
+    subst this
+    exact ⟨⟨999, 0, 100⟩, by decide⟩
   · intro n hn
-    have : blockNumber (step .head { db := gen0, head := 0, hhdr := 0 } step1).db 0 = some 0 := by decide
-    rw [show (⟨2, 0, 1, 102, [2]⟩ : Blk).parent = 0 from rfl, this] at hn
+    rw [show (⟨2, 0, 1, 102, [2]⟩ : Blk).parent = 0 from rfl, hn1] at hn
     injection hn with hn; subst hn; rfl
+  · intro m hm
+    have : m = 0 := by have : (1 : Nat) = m + 1 := hm
+                       omega
+    subst this
+    exact ⟨⟨999, 0, 100⟩, by decide⟩
 
-example : StepsOK true .preFix { db := gen0, head := 0, hhdr := 0 } (siblingReorg.take 1) := by
-  refine ⟨⟨⟨by decide, by decide, by decide, by decide, ?_⟩, Or.inr (fun _ => rfl)⟩, trivial⟩
-  intro n hn
-  have : blockNumber gen0 0 = some 0 := by decide
-  rw [show (⟨1, 0, 1, 101, [1]⟩ : Blk).parent = 0 from rfl, this] at hn
-  injection hn with hn; subst hn; rfl
+example : StepsOK true (fun _ _ => True) .preFix { db := gen0, head := 0, hhdr := 0 } (siblingReorg.take 1) := by
+  have hn0 : blockNumber gen0 0 = some 0 := by decide
+  refine ⟨⟨⟨by decide, by decide, by decide, by decide, ?_, trivial, ?_⟩, Or.inr (fun _ => rfl)⟩, trivial⟩
+  · intro n hn
+    rw [show (⟨1, 0, 1, 101, [1]⟩ : Blk).parent = 0 from rfl, hn0] at hn
+    injection hn with hn; subst hn; rfl
+  · intro m hm
+    have : m = 0 := by have : (1 : Nat) = m + 1 := hm
+                       omega
+    subst this
+    exact ⟨⟨999, 0, 100⟩, by decide⟩
+
+/-! ## 5. Feeding the original blocks again converges to the crash-free head -/
+
+/-- **`reimport_converges` (archive node).**  Setting: `U` is the universe of the original blocks (`World U`: ids are
+    hashes, positive difficulties, no transaction twice along a chain; `g` its only block of number 0); the writers were
+    handed blocks of `U` (`Inv`/`StepsOK` with the header predicate `VU U`).  Take ANY crash prefix `p` of the write log of
+    ANY valid history: `NewBlockChain` succeeds and exposes the last block made head; view the recovered image as a state of
+    the chain model of C02 (`absSt`: stored blocks with their state, total-difficulty records, number index, head).  Feed
+    all blocks of `U` again in any parent-first order `L` (`POrder`), with any coin flips: no call fails, and the final head
+    has EXACTLY the total difficulty of the head of the crash-free run `ops` (any import history from genesis in which
+    every block of `U` got fully validated; C02's `head_is_max` makes that head the heaviest) — and it is the same block
+    when no two blocks of `U` have the same total difficulty.
+    Assumed, stated precisely: the blocks are valid (the chain model imports only valid blocks); a total-difficulty
+    record holds parent's record + difficulty (C02 `td_recurrence`; the C04 store model records only its presence); the
+    node is an archive node, so every stored block still has its state (for a pruning node see the `_partial` below). -/
+theorem reimport_converges {U : Chain.Map Chain.Blk} (W : Chain.World U) (g : Chain.Blk) (hgU : U g.id = some g)
+    (hg0 : g.number = 0) (hgt : g.txs = []) (hz : ∀ k x, U k = some x → x.number = 0 → x = g)
+    (db : Db) (g₀ : Hash) (hi : Inv true (VU U) db g₀) (steps : List Step)
+    (hok : StepsOK true (VU U) .head { db := db, head := g₀, hhdr := g₀ } steps)
+    (p : List GEvent) (hp : p <+: writeLog .head db g₀ steps)
+    (L : List Chain.Blk) (hLU : ∀ b ∈ L, U b.id = some b) (hcover : ∀ k x, U k = some x → x = g ∨ x ∈ L)
+    (hord : Chain.POrder (absSt U g (applyAll db (p.map (·.1))) (ghostAt g₀ p)).store L)
+    (coins : List (List Bool)) (i : Nat)
+    (archive : Bool) (ops : List Chain.Op) (hops : ∀ op ∈ ops, Chain.IsImport op ∧ Chain.OpOk U (Chain.init g archive) op)
+    (hall : ∀ k x, U k = some x → (Chain.run (Chain.init g archive) ops).seen k = true) :
+    ∃ m, recover (applyAll db (p.map (·.1))) = .ok (ghostAt g₀ p) m ∧
+      ∃ s', (Chain.importSeq (absSt U g (applyAll db (p.map (·.1))) (ghostAt g₀ p)) L coins i).1 = ⟨s', none⟩ ∧
+        s'.td s'.head = (Chain.run (Chain.init g archive) ops).td (Chain.run (Chain.init g archive) ops).head ∧
+        ((∀ x y t, U x.id = some x → U y.id = some y → Chain.TDof U g x t → Chain.TDof U g y t → x = y) →
+          s'.head = (Chain.run (Chain.init g archive) ops).head) := by
+  have hinv := writeLog_allInv .head hi steps hok p hp
+  -- recovery exposes the last block made head
+  have hrec : ∃ m, recover (applyAll db (p.map (·.1))) = .ok (ghostAt g₀ p) m := by
+    have hio := imageOK_of_inv hinv
+    unfold imageOK at hio
+    simp only [Bool.and_eq_true, beq_iff_eq] at hio
+    obtain ⟨h₀, n₀, a, m, hd, hh, _, ho, _, ha, _⟩ := localOK_recovers' true _ hio.1
+    rw [hio.2] at hh; cases hh
+    exact ⟨m, by rw [ho, ha rfl]⟩
+  obtain ⟨m, hm⟩ := hrec
+  obtain ⟨s', he, _, htd, hhead⟩ := Chain.refeed_matches_crashfree W g hgU hg0 hgt (winv_abs W hg0 hz hinv) L hLU hcover hord
+    coins i archive ops hops hall
+  exact ⟨m, hm, s', he, htd, hhead⟩
+
+/-- **pruning node, partial.**  The same conclusion for a pruning node is proved only for crash prefixes on which every
+    stored block still has its state on disk (e.g. after a `Stop` that flushed them, or while the chain is short).  What
+    is missing for the general pruning case: after a crash the states below the exposed head may be gone; the re-import
+    then runs through `ErrPrunedAncestor` → `WriteBlockWithoutState` / the side-chain re-execution (`processWinners`),
+    which regenerate the states — modelled in `Aqv.Model.Chain` but not covered by the weak invariant used here.  The
+    harness judges the re-import on the real code at every crash prefix of pruning histories. -/
+theorem reimport_converges_pruning_partial {U : Chain.Map Chain.Blk} (W : Chain.World U) (g : Chain.Blk)
+    (hgU : U g.id = some g) (hg0 : g.number = 0) (hgt : g.txs = []) (hz : ∀ k x, U k = some x → x.number = 0 → x = g)
+    (db : Db) (g₀ : Hash) (hi : Inv false (VU U) db g₀) (steps : List Step)
+    (hok : StepsOK false (VU U) .head { db := db, head := g₀, hhdr := g₀ } steps)
+    (p : List GEvent) (hp : p <+: writeLog .head db g₀ steps)
+    (hstates : ∀ h n hd, getBlock (applyAll db (p.map (·.1))) h n = some hd →
+      hasState (applyAll db (p.map (·.1))) hd.root = true)
+    (L : List Chain.Blk) (hLU : ∀ b ∈ L, U b.id = some b) (hcover : ∀ k x, U k = some x → x = g ∨ x ∈ L)
+    (hord : Chain.POrder (absSt U g (applyAll db (p.map (·.1))) (ghostAt g₀ p)).store L)
+    (coins : List (List Bool)) (i : Nat)
+    (archive : Bool) (ops : List Chain.Op) (hops : ∀ op ∈ ops, Chain.IsImport op ∧ Chain.OpOk U (Chain.init g archive) op)
+    (hall : ∀ k x, U k = some x → (Chain.run (Chain.init g archive) ops).seen k = true) :
+    ∃ s', (Chain.importSeq (absSt U g (applyAll db (p.map (·.1))) (ghostAt g₀ p)) L coins i).1 = ⟨s', none⟩ ∧
+      s'.td s'.head = (Chain.run (Chain.init g archive) ops).td (Chain.run (Chain.init g archive) ops).head ∧
+      ((∀ x y t, U x.id = some x → U y.id = some y → Chain.TDof U g x t → Chain.TDof U g y t → x = y) →
+        s'.head = (Chain.run (Chain.init g archive) ops).head) := by
+  have hinv := writeLog_allInv .head hi steps hok p hp
+  have hinv' : Inv true (VU U) (applyAll db (p.map (·.1))) (ghostAt g₀ p) :=
+    ⟨hinv.ext, hinv.head, hinv.chain, hinv.closed, hinv.gstate, fun _ => hstates, hinv.hnum⟩
+  obtain ⟨s', he, _, htd, hhead⟩ := Chain.refeed_matches_crashfree W g hgU hg0 hgt (winv_abs W hg0 hz hinv') L hLU hcover hord
+    coins i archive ops hops hall
+  exact ⟨s', he, htd, hhead⟩
+
+/-! non-vacuity of `reimport_converges`: the sibling reorganisation, crashed right after block 2's batch was flushed and
+    before `reorg` moved the head (the window in which the 130fc0e rule matters) -/
+
+def cg : Chain.Blk := ⟨0, 999, 0, 100, []⟩
+def c1 : Chain.Blk := ⟨1, 0, 1, 10, [1]⟩
+def c2 : Chain.Blk := ⟨2, 0, 1, 20, [2]⟩
+def U0 : Chain.Map Chain.Blk := Chain.mapOf [cg, c1, c2]
+
+theorem U0_cases {k : Nat} {x : Chain.Blk} (h : U0 k = some x) : x = cg ∨ x = c1 ∨ x = c2 := by
+  have := (Chain.mapOf_id h).2
+  simpa using this
+
+example :
+    let img := applyAll gen0 (((writeLog .head gen0 0 siblingReorg).take 7).map (·.1))
+    recover img = .ok 1 1 ∧ (get img (.header 2)).isSome = true ∧
+    ((Chain.importSeq (absSt U0 cg img 1) [c1, c2] [] 0).1).st.head = 2 := by decide
+
+example : ∃ m s', recover (applyAll gen0 (((writeLog .head gen0 0 siblingReorg).take 7).map (·.1))) = .ok 1 m ∧
+    (Chain.importSeq (absSt U0 cg (applyAll gen0 (((writeLog .head gen0 0 siblingReorg).take 7).map (·.1))) 1)
+      [c1, c2] [] 0).1 = ⟨s', none⟩ ∧
+    s'.td s'.head = (Chain.run (Chain.init cg true) [.insert [c1] [], .insert [c2] []]).td
+      (Chain.run (Chain.init cg true) [.insert [c1] [], .insert [c2] []]).head := by
+  have W : Chain.World U0 := Chain.world_of_check (by decide)
+  have hz : ∀ k x, U0 k = some x → x.number = 0 → x = cg := by
+    intro k x hx h0
+    rcases U0_cases hx with rfl | rfl | rfl
+    · rfl
+    · cases h0
+    · cases h0
+  -- the genesis image satisfies the invariant with the universe's header predicate
+  have hi0 : Inv true (fun _ _ => True) gen0 0 := invB_sound (by decide)
+  have hval : ∀ h n hd, getHeader gen0 h n = some hd → VU U0 h hd := by
+    intro h n hd hh
+    obtain ⟨hg, _⟩ := getHeader_eq hh
+    have h0 : h = 0 := by
+      by_cases e : h = 0
+      · exact e
+      · have e' : ¬ (0 = h) := fun x => e x.symm
+        simp [gen0, get_cons, e'] at hg
+    subst h0
+    have : hd = ⟨999, 0, 100⟩ := by
+      simp [gen0, get_cons] at hg
+      cases hd; simp_all
+    subst this
+    exact ⟨cg, by decide, rfl, rfl⟩
+  have hi : Inv true (VU U0) gen0 0 :=
+    ⟨⟨hval, hi0.ext.pclosed, hi0.ext.storedTd⟩, hi0.head, hi0.chain, hi0.closed, hi0.gstate, hi0.arch, hi0.hnum⟩
+  have hn0 : blockNumber gen0 0 = some 0 := by decide
+  have hn1 : blockNumber (step .head { db := gen0, head := 0, hhdr := 0 } step1).db 0 = some 0 := by decide
+  have hok : StepsOK true (VU U0) .head { db := gen0, head := 0, hhdr := 0 } siblingReorg := by
+    refine ⟨⟨⟨by decide, by decide, by decide, by decide, ?_, ⟨c1, by decide, rfl, rfl⟩, ?_⟩, Or.inl ⟨rfl, rfl⟩⟩,
+      ⟨⟨by decide, by decide, by decide, by decide, ?_, ⟨c2, by decide, rfl, rfl⟩, ?_⟩, Or.inl ⟨rfl, rfl⟩⟩, trivial⟩
+    · intro n hn
+      rw [show (⟨1, 0, 1, 101, [1]⟩ : Blk).parent = 0 from rfl, hn0] at hn
+      injection hn with hn; subst hn; rfl
+    · intro m hm
+      have : m = 0 := by have : (1 : Nat) = m + 1 := hm
+                         omega
+      subst this
+      exact ⟨⟨999, 0, 100⟩, by decide⟩
+    · intro n hn
+      rw [show (⟨2, 0, 1, 102, [2]⟩ : Blk).parent = 0 from rfl, hn1] at hn
+      injection hn with hn; subst hn; rfl
+    · intro m hm
+      have : m = 0 := by have : (1 : Nat) = m + 1 := hm
+                         omega
+      subst this
+      exact ⟨⟨999, 0, 100⟩, by decide⟩
+  have hghost : ghostAt 0 ((writeLog .head gen0 0 siblingReorg).take 7) = 1 := by decide
+  obtain ⟨m, hm, s', he, htd, _⟩ := reimport_converges W cg (by decide) rfl rfl hz gen0 0 hi siblingReorg hok
+    ((writeLog .head gen0 0 siblingReorg).take 7) (List.take_prefix _ _) [c1, c2]
+    (by intro b hb; simp at hb; rcases hb with rfl | rfl <;> decide)
+    (by intro k x hx; rcases U0_cases hx with rfl | rfl | rfl <;> simp)
+    (by rw [hghost]; exact ⟨⟨cg, by decide⟩, ⟨cg, by decide⟩, trivial⟩)
+    [] 0 true [.insert [c1] [], .insert [c2] []]
+    (by intro op hop; simp at hop; rcases hop with rfl | rfl <;> exact ⟨trivial, by decide⟩)
+    (by intro k x hx; rcases U0_cases hx with rfl | rfl | rfl <;> (have := (Chain.mapOf_id hx).1; subst this; decide))
+  rw [hghost] at hm he
+  exact ⟨m, s', hm, he, htd⟩
 
 /-! ### `SetHead` (outside the property's quantifier — recorded, not claimed) -/
 
